@@ -19,12 +19,16 @@ def make_catalog(r, with_detcat=False):
         x0, y0 = r.uniform(6, 50), r.uniform(6, 42)
         sx, sy = r.uniform(1.2, 2.4), r.uniform(1.2, 2.4)
         img += r.uniform(40, 120) * np.exp(-0.5 * (((xx - x0) / sx) ** 2 + ((yy - y0) / sy) ** 2))
+    # faint, small sources near the detection limit (fall-back branches of the fitted centroids) and a masked-out core
+    for _ in range(r.randint(2, 5)):
+        x0, y0 = r.uniform(6, 50), r.uniform(6, 42)
+        img += r.uniform(3.0, 6.0) * np.exp(-0.5 * (((xx - x0) / 0.9) ** 2 + ((yy - y0) / 0.9) ** 2))
     img += rs.normal(0, 0.4, img.shape)
     err = np.full(img.shape, 0.4)
     with warnings.catch_warnings():
         warnings.simplefilter('ignore')
         conv = convolve(img, make_2dgaussian_kernel(2.0, size=3))
-        segm = detect_sources(conv, 2.0, npixels=6)
+        segm = detect_sources(conv, r.choice([2.0, 1.2]), npixels=r.choice([6, 3]))
         kw = {}
         if with_detcat:
             kw['detection_cat'] = SourceCatalog(img, segm, convolved_data=conv)
